@@ -245,6 +245,7 @@ static void vsend (const struct sockaddr_in *from0, const struct sockaddr_in *to
 /* scripted servers live in the same network */
 static int server_handle (Dgram *g);
 
+static unsigned long n_popped = 0;       /* datagrams handed to a socket so far */
 static Dgram *pop_for (int fd)
 {
   Dgram **pp;
@@ -253,7 +254,7 @@ static Dgram *pop_for (int fd)
     if (g->due_us > verif_now_us) break;
     if (g->to.sin_port == udpfd[fd].addr.sin_port &&
         (g->to.sin_addr.s_addr == udpfd[fd].addr.sin_addr.s_addr || udpfd[fd].addr.sin_addr.s_addr == 0)) {
-      *pp = g->next; return g;
+      *pp = g->next; n_popped++; return g;
     }
   }
   return NULL;
@@ -516,7 +517,7 @@ static int iterate_ready (void)
   int n = 0;
   /* every dispatching iteration costs a little (virtual) time, as it does on a real clock: without this
    * a timer re-armed with a sub-millisecond remainder (interval 0) would fire for ever at a frozen instant */
-  while (g_main_context_iteration (ctx, FALSE)) { n++; verif_now_us += tick_cost_us; if (n > 20000) { if (tick_cost_us) printf ("ev spin-detected\n"); if (getenv ("SIM_DEBUG")) { int k; for (k = 0; k < 3; k++) glib_timeout (); } break; } }
+  while (g_main_context_iteration (ctx, FALSE)) { n++; verif_now_us += tick_cost_us; if (n > (tick_cost_us ? 20000 : 64)) { if (tick_cost_us) printf ("ev spin-detected\n"); if (getenv ("SIM_DEBUG")) { int k; for (k = 0; k < 3; k++) glib_timeout (); } break; } }
   return n;
 }
 
@@ -543,7 +544,7 @@ static void server_pump (void);
 
 static void run_until (uint64_t end_us)
 {
-  int guard = 0;
+  int guard = 0, quiet = 0; uint64_t quiet_at = 0;
   while (1) {
     gint to; uint64_t next;
     total_dispatches += iterate_ready ();
@@ -552,8 +553,14 @@ static void run_until (uint64_t end_us)
     to = glib_timeout ();
     if (to == 0) {
       /* with a zero dispatch cost (net tickcost 0) a timer re-armed with a sub-millisecond remainder would fire
-       * for ever at a frozen instant: let the instant pass */
-      if (tick_cost_us == 0 && ++guard > 3) { verif_now_us += 1000; guard = 0; continue; }
+       * for ever at a frozen instant: let the instant pass — but only after far more rounds than any finite chain
+       * of idle callbacks / datagrams at one instant takes, so that the nudge depends on the instant alone and not
+       * on how many (injected) datagrams were handled there: paired runs with and without injected traffic keep
+       * identical timing */
+      if (tick_cost_us == 0) {
+        if (verif_now_us != quiet_at) { quiet_at = verif_now_us; quiet = 0; }
+        if (++quiet > 300) { verif_now_us += 1000; quiet = 0; guard = 0; continue; }
+      }
       if (++guard > 200000) { printf ("ev spin-detected\n"); break; }
       continue;
     }
@@ -924,7 +931,14 @@ int main (void)
         puts ("ok");
       }
       else if (!strcmp (w[1], "dropnext") && n == 3) { dropnext = atoi (w[2]); puts ("ok"); }
-      else if (!strcmp (w[1], "tickcost") && n == 3) { tick_cost_us = atoi (w[2]); puts ("ok"); }
+      else if (!strcmp (w[1], "tickcost") && n == 3) {
+        tick_cost_us = atoi (w[2]);
+        /* with no dispatch cost the clock only moves to datagram due times and GLib timeouts, all whole milliseconds
+         * from here on: start on a millisecond boundary, so that the moment a GLib timeout (millisecond resolution,
+         * rounded up) fires does not depend on the sub-millisecond phase of whatever woke the loop before it */
+        if (tick_cost_us == 0) verif_now_us = (verif_now_us + 999) / 1000 * 1000;
+        puts ("ok");
+      }
       else if (!strcmp (w[1], "nat") && n == 4 && n_nat < 8) {
         if (inet_pton (AF_INET, w[2], &nat_rules[n_nat].real) == 1 && inet_pton (AF_INET, w[3], &nat_rules[n_nat].pub) == 1) { n_nat++; puts ("ok"); }
         else puts ("err bad nat");
